@@ -16,27 +16,32 @@ def registry(tier):
         add(prop, name, qtier, lambda ctx: Q.fifo_query(ctx, name, kind, N, k, threads, oracle, slack, TO))
     P, C = ["send"], ["recv"]
     # ---- C01: exactly-once delivery on the two rings and the two zero-copy wrappers
-    fifo("C01", "c01_atomic_2p1c_n2_k0", "quick", "AtomicMove", 2, 0, [P, P, C + C], "exactly_once")
-    fifo("C01", "c01_atomic_1p2c_n2_k2", "quick", "AtomicMove", 2, 2, [P, C, C], "exactly_once")
-    fifo("C01", "c01_atomic_2p2c_n2_k1", "quick", "AtomicMove", 2, 1, [P, P, C, C], "exactly_once", 2)
-    fifo("C01", "c01_fullsync_2p1c_n2_k1", "quick", "FullSyncMove", 2, 1, [P, P, C + C], "exactly_once")
-    fifo("C01", "c01_zc_atomic_1p1c_n2_k1", "quick", "AtomicZeroCopy", 2, 1, [P, C + C], "exactly_once")
-    fifo("C01", "c01_zc_fullsync_1p1c_n2_k1", "quick", "FullSyncZeroCopy", 2, 1, [P, C + C], "exactly_once")
+    fifo("C01", "c01_atomic_1p2c_n2_k2", "quick", "AtomicMove", 2, 2, [P, C, C], "exactly_once", 2)
+    fifo("C01", "c01_atomic_2p1c_n2_k1", "quick", "AtomicMove", 2, 1, [P, P, C], "exactly_once", 2)
+    fifo("C01", "c01_fullsync_2p1c_n2_k1", "quick", "FullSyncMove", 2, 1, [P, P, C], "exactly_once", 2)
+    fifo("C01", "c01_zc_atomic_1p1c_n2_k1", "quick", "AtomicZeroCopy", 2, 1, [P, C + C], "exactly_once", 2)
+    fifo("C01", "c01_zc_fullsync_1p1c_n2_k1", "quick", "FullSyncZeroCopy", 2, 1, [P, C + C], "exactly_once", 2)
+    fifo("C01", "c01_atomic_2p1c_n2_k0", "thorough", "AtomicMove", 2, 0, [P, P, C + C], "exactly_once")
+    fifo("C01", "c01_atomic_2p2c_n2_k1", "thorough", "AtomicMove", 2, 1, [P, P, C, C], "exactly_once", 2)
     fifo("C01", "c01_atomic_2p2c_n4_k3", "thorough", "AtomicMove", 4, 3, [P + P, P, C, C + C], "exactly_once")
     fifo("C01", "c01_atomic_3p1c_n2_k1", "thorough", "AtomicMove", 2, 1, [P, P, P, C + C], "exactly_once")
     fifo("C01", "c01_fullsync_2p2c_n2_k1", "thorough", "FullSyncMove", 2, 1, [P, P, C, C], "exactly_once")
     fifo("C01", "c01_zc_atomic_2p1c_n2_k1", "thorough", "AtomicZeroCopy", 2, 1, [P, P, C + C], "exactly_once")
     fifo("C01", "c01_zc_fullsync_2p1c_n2_k1", "thorough", "FullSyncZeroCopy", 2, 1, [P, P, C + C], "exactly_once")
-    # ---- C02: linearizable bounded FIFO
-    fifo("C02", "c02_atomic_lin_2p1c_n2_k1", "quick", "AtomicMove", 2, 1, [P, P, C + C], "linearizable")
-    fifo("C02", "c02_atomic_lin_1p2c_n2_k2", "quick", "AtomicMove", 2, 2, [P, C, C], "linearizable")
-    fifo("C02", "c02_atomic_lin_2p2c_n2_k1", "quick", "AtomicMove", 2, 1, [P, P, C, C], "linearizable", 2)
-    fifo("C02", "c02_fullsync_lin_2p1c_n2_k1", "quick", "FullSyncMove", 2, 1, [P, P, C + C], "linearizable")
-    fifo("C02", "c02_zc_atomic_lin_1p1c_n2_k1", "quick", "AtomicZeroCopy", 2, 1, [P + P, C + C], "linearizable")
-    fifo("C02", "c02_atomic_lin_2p2c_n2_k2", "thorough", "AtomicMove", 2, 2, [P + P, P, C, C], "linearizable")
-    fifo("C02", "c02_atomic_lin_2p1c_n4_k3", "thorough", "AtomicMove", 4, 3, [P + P, P, C + C], "linearizable")
-    fifo("C02", "c02_fullsync_lin_2p2c_n2_k1", "thorough", "FullSyncMove", 2, 1, [P, P, C, C], "linearizable")
-    fifo("C02", "c02_zc_fullsync_lin_1p1c_n2_k1", "thorough", "FullSyncZeroCopy", 2, 1, [P + P, C + C], "linearizable")
+    # ---- C02: linearizable bounded FIFO (no drain thread: the recorded history itself is the subject)
+    def lin(name, qtier, kind, N, k, threads, slack=2):
+        add("C02", name, qtier, lambda ctx: Q.fifo_query(ctx, name, kind, N, k, threads, "linearizable", slack, TO, drain=False))
+    lin("c02_atomic_lin_1p2c_n2_k2", "quick", "AtomicMove", 2, 2, [P, C, C])
+    lin("c02_atomic_lin_2p1c_n2_k1", "quick", "AtomicMove", 2, 1, [P, P, C])
+    lin("c02_atomic_lin_pp_cc_n2_k1", "quick", "AtomicMove", 2, 1, [P + P, C + C])
+    lin("c02_fullsync_lin_2p1c_n2_k1", "quick", "FullSyncMove", 2, 1, [P, P, C])
+    lin("c02_zc_atomic_lin_p_cc_n2_k1", "quick", "AtomicZeroCopy", 2, 1, [P, C + C])
+    lin("c02_atomic_lin_2p2c_n2_k1", "thorough", "AtomicMove", 2, 1, [P, P, C, C])
+    lin("c02_atomic_lin_2p2c_n2_k2", "thorough", "AtomicMove", 2, 2, [P + P, P, C, C])
+    lin("c02_atomic_lin_2p1c_n4_k3", "thorough", "AtomicMove", 4, 3, [P + P, P, C + C])
+    lin("c02_fullsync_lin_2p2c_n2_k1", "thorough", "FullSyncMove", 2, 1, [P, P, C, C])
+    lin("c02_zc_atomic_lin_pp_cc_n2_k1", "thorough", "AtomicZeroCopy", 2, 1, [P + P, C + C])
+    lin("c02_zc_fullsync_lin_p_cc_n2_k1", "thorough", "FullSyncZeroCopy", 2, 1, [P, C + C])
     for prop, maker in getattr(Q, "EXTRA_REGISTRIES", []):
         maker(add, tier, TO)
     return R
